@@ -155,29 +155,54 @@ theorem C06_maps_follow_answers (parse : Bytes → Option Uuid) (ops : List Op) 
     (`is_encrypted`, `client_uuid`) change in a step only if that step is a pair-verify exchange on
     `c` whose outer layer opens, whose identifier parses to a controller `u` that is paired right
     now with key `k`, and whose proof was made with the private key belonging to `k` — and then
-    they become "verified as `u`"; the pairing maps do not change. In particular a failed exchange
-    (bogus / foreign / missing proof, wrong outer key, unknown or unparsable identifier) on an
-    already verified connection leaves its identity as it was. -/
+    they become "verified as `u`". In particular a failed exchange (bogus / foreign / missing proof,
+    wrong outer key, unknown or unparsable identifier) on an already verified connection leaves its
+    identity as it was. -/
 theorem C06_session_identity (parse : Bytes → Option Uuid) (s : PState) (ss : Sessions) (op : SOp)
     (c : Nat) (h : (sstep parse s ss op).2.1 c ≠ ss c) :
     ∃ v u idb k, op = .verify c v ∧ v.outerOk = true ∧ v.idb = some idb ∧ parse idb = some u ∧
       aget s.paired u = some k ∧ v.signer = some k ∧
-      (sstep parse s ss op).2.1 c = ⟨true, some u⟩ ∧ (sstep parse s ss op).1 = s := by
+      (sstep parse s ss op).2.1 c = ⟨true, some u⟩ := by
   cases op with
   | setup idb key => exact absurd rfl h
   | req c' body => exact absurd rfl h
   | verify c' v =>
     simp only [sstep] at h ⊢
-    cases hv : verifies parse s v with
+    cases hv : verifiesAs parse s v with
     | none => rw [hv] at h; exact absurd rfl h
-    | some u =>
+    | some p =>
+      obtain ⟨u, idb⟩ := p
       rw [hv] at h
       simp only at h ⊢
       by_cases hc : c = c'
       · subst hc
-        obtain ⟨ho, idb, k, h1, h2, h3, h4⟩ := verifies_some parse s v u hv
+        obtain ⟨ho, k, h1, h2, h3, h4⟩ := verifiesAs_some parse s v u idb hv
         exact ⟨v, u, idb, k, rfl, ho, h1, h2, h3, h4, by simp⟩
       · simp [hc] at h
+
+/-- Only admin requests change pairings: a pair-verify exchange — successful or not, by an admin
+    or by a plain user, with whatever spelling of its identifier — leaves `paired_clients` and
+    `client_properties` exactly as they were and never alters identifier bytes that are recorded
+    (so list-pairings keeps returning the bytes each controller was REGISTERED with). The one thing
+    it may do is the documented back-fill: record the presented bytes for the controller it has
+    just proved, when NO bytes were stored for it (state imported from an older file). -/
+theorem C06_verify_preserves_pairings (parse : Bytes → Option Uuid) (s : PState) (ss : Sessions)
+    (c : Nat) (v : VerifyAttempt) :
+    let s' := (sstep parse s ss (.verify c v)).1
+    s'.paired = s.paired ∧ s'.props = s.props ∧
+    (∀ u b, aget s.u2b u = some b → aget s'.u2b u = some b) ∧
+    (s' = s ∨ ∃ u idb, verifiesAs parse s v = some (u, idb) ∧ aget s.u2b u = none ∧
+      s'.u2b = aset s.u2b u idb) := by
+  simp only [sstep]
+  cases hv : verifiesAs parse s v with
+  | none => exact ⟨rfl, rfl, fun _ _ hb => hb, Or.inl rfl⟩
+  | some p =>
+    obtain ⟨u, idb⟩ := p
+    obtain ⟨h1, h2, h3, h4⟩ := backfill_spec s u idb
+    refine ⟨h1, h2, h3, ?_⟩
+    rcases h4 with h4 | ⟨h5, h6⟩
+    · exact Or.inl h4
+    · exact Or.inr ⟨u, idb, rfl, h5, h6⟩
 
 /-- Guard with real sessions: a `POST /pairings` on a connection whose session facts are not
     "verified as a controller that is admin now" changes neither the pairing maps nor any session,
